@@ -11,7 +11,7 @@ LEVEL = "exploration"
 ENGINE = "E1"
 TECHNIQUE = "bounded exhaustive enumeration of ranges x spellings x listings mixing direct/indirect branches and other instructions on the real code; oracle computed from the decoded stream and the option-less run"
 RULE = ("ranges: EVERY pair min<=max over an 8-value grid (incl. min=max, adjacent values, 1-, 8- and 16-digit values up to 2^63-1 and kernel-style 0xffffffff81000000) x 4 "
-        "spellings (0x/no 0x, leading zeros, upper-case digits) of min and max; listings: EVERY sequence of length 1..2 "
+        "spellings (0x/no 0x, leading zeros, upper-case digits) of min and max; listings (every second one with its first instruction wrapped over a byte-continuation line): EVERY sequence of length 1..2 "
         "over an alphabet built per range: direct call/jmp with target in {min-1,min,min+1,max-1,max,max+1,far} (targets "
         "printed as objdump does, and with 0x), indirect call/jmp (*%rax, *%r9, *%r10, *%r15, *0x10(%rip), *(%rax), absolute-slot *0x<min>, *0x<max>), conditional jumps in/out "
         "of range, non-branches whose first operand is an in-range number, operand-less and ordinary instructions; plus the "
@@ -87,10 +87,11 @@ def run_shard(shard, tier, h, res, known):
         listings = [idx for n in (1, 2) for idx in itertools.product(range(len(A)), repeat=n)]
         # materialise the listings once
         mat = []
-        for idx in listings:
-            att = [(f"{0x500000 + 5 * p:x}", A[i][0], A[i][1]) for p, i in enumerate(idx)]
+        for ln, idx in enumerate(listings):
+            att = [(f"{0x500000 + 8 * p:x}", A[i][0], A[i][1]) for p, i in enumerate(idx)]
             lines_annot = {p: A[i][3] for p, i in enumerate(idx)}
-            tl = fmt_listing(att).split("\n")
+            # every second listing prints its first instruction as objdump prints a long one: 7 bytes + a continuation line
+            tl = fmt_listing(att, wrapped=(ln % 2 == 1)).split("\n")
             k = 0
             for li, l in enumerate(tl):       # objdump's <sym> annotation on direct targets
                 if rm.classify_line(l)[0] == "inst":
